@@ -211,27 +211,29 @@ SigKind(toks, fi, tm, p) ==
           ELSE IF fi[p].pd > 0 /\ ((OperandEnd(L) /\ PlusMinus(R)) \/ (PlusMinus(L) /\ OperandStart(R)))
                  THEN "op" ELSE ""
 
+(* one pass: <<tokens without the insignificant white space, kinds of significant white space met>> *)
 DropWS(toks) ==
   LET fi == Fwd(toks)
       tm == Bwd(toks)
-  IN FoldLeft(LAMBDA acc, p : IF toks[p].k # "w" THEN Append(acc, toks[p])
+  IN FoldLeft(LAMBDA acc, p : IF toks[p].k # "w" THEN <<Append(acc[1], toks[p]), acc[2]>>
                                ELSE LET g == SigKind(toks, fi, tm, p) IN
-                                      IF g = "" THEN acc ELSE Append(acc, Tok("w", <<>>)),
-              <<>>, Idx(Len(toks)))
-
-(* kinds of the significant white space of a token sequence (for naming cases) *)
-SigKinds(toks) ==
-  LET fi == Fwd(toks)
-      tm == Bwd(toks)
-  IN {SigKind(toks, fi, tm, p) : p \in 1..Len(toks)} \ {""}
+                                      IF g = "" THEN acc ELSE <<Append(acc[1], WTok), acc[2] \cup {g}>>,
+              <<<<>>, {}>>, Idx(Len(toks)))
 
 DropSemis(c) ==
   FoldLeft(LAMBDA acc, p : IF IsD(c[p], 59) /\ p < Len(c) /\ (IsD(c[p + 1], 59) \/ IsD(c[p + 1], 125))
                              THEN acc ELSE Append(acc, c[p]),
            <<>>, Idx(Len(c)))
 
-Canon(toks) == DropSemis(DropWS(toks))
+Canon(toks) == DropSemis(DropWS(toks)[1])
+
+(* kinds of the significant white space of a token sequence (for naming cases) *)
+SigKinds(toks) == DropWS(toks)[2]
 
 (* total: a text outside the domain has no canonical form *)
 CanonOf(l) == IF LexWF(l) THEN [ok |-> TRUE, toks |-> Canon(l.toks)] ELSE [ok |-> FALSE, toks |-> <<>>]
+
+(* the same with the kinds of significant white space: [ok, toks, sig] *)
+CanonInfo(l) == IF LexWF(l) THEN LET d == DropWS(l.toks) IN [ok |-> TRUE, toks |-> DropSemis(d[1]), sig |-> d[2]]
+                ELSE [ok |-> FALSE, toks |-> <<>>, sig |-> {}]
 =============================================================================
